@@ -47,8 +47,14 @@ impl Scenario {
             run,
         }
     }
+    /// every atomic and payload access is a scheduling point, plus one after every store / RMW
     pub fn fine(mut self) -> Self {
         self.cfg.coarse = false;
+        self.cfg.post_points = true;
+        self
+    }
+    pub fn post_points(mut self, b: bool) -> Self {
+        self.cfg.post_points = b;
         self
     }
     pub fn t2(mut self) -> Self {
@@ -94,7 +100,7 @@ impl Scenario {
     }
     pub fn cfg_json(&self) -> Value {
         json!({
-            "coarse": self.cfg.coarse, "t2": self.cfg.t2, "desc": self.cfg.desc, "horizon": self.cfg.horizon,
+            "coarse": self.cfg.coarse, "post_points": self.cfg.post_points, "t2": self.cfg.t2, "desc": self.cfg.desc, "horizon": self.cfg.horizon,
             "vt_horizon_ns": self.cfg.vt_horizon, "fair": self.cfg.fair, "alloc": alloc::mode_name(self.alloc),
             "bound": self.bound
         })
@@ -130,6 +136,7 @@ pub struct ExecSummary {
     pub msg: String,
     pub threads_active: u32,
     pub reused: u32,
+    pub sub_evals: u64,
 }
 
 impl ExecSummary {
@@ -205,6 +212,7 @@ fn launch(sc: &Scenario, slot: &mut Slot, sched: Sched) {
         s.n_pairs = 0;
         s.n_sites = 0;
         s.ring_len = 0;
+        s.sub_evals = 0;
         s.steps = 0;
         s.sig_hash = 0;
         let pid = libc::fork();
@@ -251,6 +259,7 @@ fn read_summary(slot: &Slot, wstatus: i32) -> ExecSummary {
         msg,
         threads_active: sh.threads_active,
         reused: sh.reused,
+        sub_evals: sh.sub_evals,
     }
 }
 
@@ -288,6 +297,7 @@ pub struct ScenarioResult {
     pub sites: BTreeSet<u32>,
     pub threads_active_max: u32,
     pub reused_max: u32,
+    pub sub_evals: u64,
     pub violations: Vec<Violation>,
     pub violation_count: u64,
     pub machinery: Vec<String>,
@@ -316,7 +326,7 @@ impl ScenarioResult {
             "sigs": self.sigs.iter().map(|s| format!("{:x}", s)).collect::<Vec<_>>(),
             "pairs": self.pairs.iter().map(|s| format!("{:x}", s)).collect::<Vec<_>>(),
             "sites": self.sites.iter().collect::<Vec<_>>(),
-            "threads_active_max": self.threads_active_max, "reused_max": self.reused_max,
+            "threads_active_max": self.threads_active_max, "reused_max": self.reused_max, "sub_evals": self.sub_evals,
             "violation_count": self.violation_count,
             "violations": self.violations.iter().map(|v| json!({
                 "scenario": v.scenario, "status": v.status, "clause": v.clause, "msg": v.msg, "out": v.out,
@@ -353,6 +363,7 @@ impl ScenarioResult {
             sites: v["sites"].as_array().map(|a| a.iter().map(|x| x.as_u64().unwrap_or(0) as u32).collect()).unwrap_or_default(),
             threads_active_max: v["threads_active_max"].as_u64().unwrap_or(0) as u32,
             reused_max: v["reused_max"].as_u64().unwrap_or(0) as u32,
+            sub_evals: v["sub_evals"].as_u64().unwrap_or(0),
             violation_count: v["violation_count"].as_u64().unwrap_or(0),
             violations: v["violations"].as_array().map(|a| a.iter().map(|x| Violation {
                 scenario: x["scenario"].as_str().unwrap_or("").to_string(),
@@ -398,6 +409,7 @@ impl ScenarioResult {
         self.sites.extend(o.sites);
         self.threads_active_max = self.threads_active_max.max(o.threads_active_max);
         self.reused_max = self.reused_max.max(o.reused_max);
+        self.sub_evals += o.sub_evals;
         self.violation_count += o.violation_count;
         for v in o.violations {
             if self.violations.len() < 12 {
@@ -503,6 +515,7 @@ pub fn explore(sc: &Scenario, opts: &Opts) -> ScenarioResult {
                 res.sigs.insert(sum.sig);
                 res.threads_active_max = res.threads_active_max.max(sum.threads_active);
                 res.reused_max = res.reused_max.max(sum.reused);
+                res.sub_evals += sum.sub_evals;
                 for p in &sh.pairs[..(sh.n_pairs as usize).min(MAX_PAIRS)] {
                     res.pairs.insert(*p);
                 }
@@ -572,11 +585,11 @@ pub fn explore(sc: &Scenario, opts: &Opts) -> ScenarioResult {
                 }
             }
         }
-        let _ = launched;
         if res.per_level.len() <= d {
             res.per_level.push(0);
         }
-        res.per_level[d] = if d == 0 && shard_k != 0 { 0 } else { n_level };
+        let _ = n_level;
+        res.per_level[d] = if d == 0 && shard_k != 0 { 0 } else { launched };
         if capped.is_some() {
             break 'levels;
         }
